@@ -27,14 +27,14 @@ ASSUMPTIONS = ["queries are spaced >= 2.6 s so that replies are attributable to 
 
 def floors(tier):
     q = tier == "quick"
-    return {"c11.unicast": 300 if q else 30000, "c11.multicast": 800 if q else 80000, "c11.routing": 1500 if q else 150000}
+    return {"c11.unicast": 10000 if q else 1000000, "c11.multicast": 30000 if q else 3000000, "c11.routing": 20000 if q else 2000000}
 
 
 def plan(tier, seed):
     if tier == "quick":
-        n, per = 16, 60
+        n, per = 16, 500
     else:
-        n, per = 64, 420
+        n, per = 64, 12000
     return [{"seed": seed, "shard": i, "per": per, "tier": tier} for i in range(n)]
 
 
@@ -128,7 +128,7 @@ def run_scenario(res: Result, seed: int) -> None:
                 as_unicast = layout == "split" and rng.random() < 0.3
                 qid = rng.choice([0, 1, 4660, 65535, rng.randrange(65536)])
                 src_ip = "fe80::77" if v6 else "10.0.0.%d" % rng.randrange(60, 70)
-                src_port = rng.randrange(1024, 65535) if legacy else 5353
+                src_port = rng.choice([p for p in (rng.randrange(1024, 65535), 40001) if p != 5353]) if legacy else 5353
                 ep = sim.net.endpoint(src_ip, src_port)
                 # ---- choose the arrival instant relative to the last sighting of one answering record
                 exp0, _, _ = model.expected([(n, t) for n, t, _ in questions], {})
